@@ -47,12 +47,23 @@ ARG_ROLES = {
 }
 
 
+def _inert(st):
+    """a statement that cannot influence the joint vector: assignment of a constant to a fresh local, pass, a bare print"""
+    if isinstance(st, ast.Pass):
+        return True
+    if isinstance(st, ast.Assign) and all(isinstance(t, ast.Name) for t in st.targets) and isinstance(st.value, ast.Constant):
+        return True
+    if isinstance(st, ast.Expr) and isinstance(st.value, ast.Call) and isinstance(st.value.func, ast.Name) and st.value.func.id in ('print', 'disp'):
+        return True
+    return False
+
+
 def clamp_loops(fnode):
     """for-loops inside the Newton while-loop that only clamp the joint vector"""
     out = []
     for w in [n for n in ast.walk(fnode) if isinstance(n, ast.While)]:
         for st in w.body:
-            if isinstance(st, ast.For) and all(isinstance(x, ast.If) for x in st.body):
+            if isinstance(st, ast.For) and any(isinstance(x, ast.If) for x in st.body) and all(isinstance(x, ast.If) or _inert(x) for x in st.body):
                 out.append((w, st))
     return out
 
@@ -136,13 +147,13 @@ def check(model, rep):
         ok_range = src(lp.iter).replace(' ', '') == 'range(len(%s))' % th
         rep.ob('R07.3', kc, 'clamp ranges over every joint', ok_range, 'clamp loop iterates %s, not range(len(%s))' % (src(lp.iter), th), line=lp.lineno)
         seen = set()
-        for st in lp.body:
+        for st in [x for x in lp.body if isinstance(x, ast.If)]:
             t = st.test
             ok, which = False, None
             cp = cmp_parts(t, left='%s[%s]' % (th, jv))
             if cp is not None:
                 rhs = cp[2]
-                asg = [s for s in st.body if isinstance(s, ast.Assign)]
+                asg = [s for s in st.body if isinstance(s, ast.Assign) and not _inert(s)]
                 if cp[1] in ('<', '<=') and rhs == '%s[%s]' % (lo_p, jv):
                     which = 'lower'
                     ok = len(asg) == 1 and norm_text(asg[0].targets[0]) == '%s[%s]' % (th, jv) and norm_text(asg[0].value) == rhs and not st.orelse
@@ -255,7 +266,7 @@ def check(model, rep):
     rep.rule('R07.5', 'IKinSpaceConstrained minus its clamp block, parameters mapped by role, has the normal form of IKinSpace')
     node = copy.deepcopy(kc.node)
     for w in [n for n in ast.walk(node) if isinstance(n, ast.While)]:
-        w.body = [st for st in w.body if not (isinstance(st, ast.For) and all(isinstance(x, ast.If) for x in st.body))]
+        w.body = [st for st in w.body if not (isinstance(st, ast.For) and any(isinstance(x, ast.If) for x in st.body) and all(isinstance(x, ast.If) or _inert(x) for x in st.body))]
     port_funcs = set(tv.toplevel_funcs(model.module(tv.PORT_MOD).tree)) | set(tv.toplevel_funcs(fm.tree))
     try:
         a_nz = Normalizer(node, SHAPES, port_funcs, None, True, tv.toplevel_names(fm.tree))
